@@ -1,9 +1,9 @@
 #!/bin/bash
 # usage: tools/store_seeded.sh <Cxx> <n> "<change>" "<needs>" "<caught_by comma list>" [extra note]
-ID=$1; N=$2; CHANGE=$3; NEEDS=$4; CAUGHT=$5; NOTE=${6:-}
+ID=$1; N=$2; SRC=${SRC:-$1}; CHANGE=$3; NEEDS=$4; CAUGHT=$5; NOTE=${6:-}
 D=/verif/seeded/$ID-$N; mkdir -p $D
-cp /tmp/out_$ID/patch.diff /tmp/out_$ID/demo.rs $D/
-for f in RUN.md notes.md; do [ -f /tmp/out_$ID/$f ] && cp /tmp/out_$ID/$f $D/; done
+cp /tmp/out_$SRC/patch.diff /tmp/out_$SRC/demo.rs $D/
+for f in RUN.md notes.md; do [ -f /tmp/out_$SRC/$f ] && cp /tmp/out_$SRC/$f $D/; done
 python3 - "$ID" "$CHANGE" "$NEEDS" "$CAUGHT" "$NOTE" "$D" <<'PY'
 import json,sys
 pid,change,needs,caught,note,d=sys.argv[1:7]
@@ -13,5 +13,5 @@ m={"breaks":pid,"needs":needs,"caught_by":[c for c in caught.split(",") if c],"c
 if note: m["note"]=note
 json.dump(m,open(d+"/meta.json","w"),indent=1)
 PY
-git -C /repo worktree remove --force /tmp/wt_$ID 2>/dev/null; rm -rf /tmp/wt_$ID /tmp/out_$ID /tmp/conf_$ID.log
+git -C /repo worktree remove --force /tmp/wt_$SRC 2>/dev/null; rm -rf /tmp/wt_$SRC /tmp/out_$SRC /tmp/conf_$SRC.log
 echo stored $D
